@@ -139,5 +139,25 @@ func WriteShards(dir, corrModule string, cases []Case, shardSize int) error {
 			break
 		}
 	}
+	ExitIfSetupFailed()
 	return nil
+}
+
+var setupFailures []string
+
+// SetupFailed records that the CODE UNDER TEST failed a set-up step which the scripted peers make succeed (e.g. a login
+// through the real callback answered 500). It is not harness infrastructure trouble (exit 3): the driver carries on with
+// a fallback, writes its cases, and finally exits with code 4, which check.py reports as a broken correspondence
+// (the cases are still judged, so a property-falsifying one among them is reported as the failing input).
+func SetupFailed(format string, args ...interface{}) {
+	setupFailures = append(setupFailures, fmt.Sprintf(format, args...))
+}
+
+// ExitIfSetupFailed ends the driver with exit code 4 when SetupFailed was called (WriteShards calls it last).
+func ExitIfSetupFailed() {
+	if len(setupFailures) == 0 {
+		return
+	}
+	fmt.Fprintf(os.Stderr, "set-up steps of the code under test failed %d times, e.g.: %s\n", len(setupFailures), setupFailures[0])
+	os.Exit(4)
 }
